@@ -195,6 +195,9 @@ class Ctx:
 PROP_RE = re.compile(r'^\[(?P<name>[^\]]+)\]\s+(?:line (?P<line>\d+)\s+)?(?P<desc>.*): (?P<res>SUCCESS|FAILURE|UNKNOWN|ERROR)\s*$')
 
 
+USER_PROP_RE = re.compile(r'\.(assertion|precondition|postcondition|loop_|assigns|unwind)')
+
+
 def parse_cbmc(out):
     props = []
     for line in out.splitlines():
@@ -316,6 +319,7 @@ def run_obligation(ctx, unit, ob, cfg, tier, canary=False, want_trace=False, cov
     res['backend'] = solver or 'minisat (default SAT)'
     verdict, props = parse_cbmc(out)
     res['properties'] = len(props)
+    res['user_props'] = len([p for p in props if USER_PROP_RE.search(p['name']) or p['desc'] == 'assertion' or p['desc'].startswith('Check ')])
     res['failed_props'] = [p for p in props if p['res'] != 'SUCCESS']
     res['sample_props'] = [p['name'] + ': ' + p['desc'] for p in props[:3]]
     if 'ignoring' in out and ('forall' in out or 'exists' in out):
@@ -512,22 +516,25 @@ def run_property(prop, tier, seed, jobs_n):
                 covers.append(r)
             else:
                 (canaries if is_canary else results).append(r)
-    # expected obligation counts (vacuity guard i)
+    # expected obligation counts (vacuity guard i): the number of USER-LEVEL cbmc properties (harness CHECKs, stub
+    # preconditions, loop-invariant / assigns / decreases checks) must not drop below what was recorded when the unit was
+    # written. Automatically generated pointer/bounds/overflow checks are not counted: their number changes with harmless edits.
     exp_path = os.path.join(ROOT, 'expected_counts.json')
     expected = load_json(exp_path) if os.path.exists(exp_path) else {}
     if os.environ.get('VERIF_RECORD_COUNTS'):
         for r in results:
             if r.get('status') == 'proved':
-                expected['%s/%s/%s' % (r['unit'], r['ob'], r['config'])] = r['properties']
+                expected['%s/%s/%s' % (r['unit'], r['ob'], r['config'])] = {'user': r.get('user_props', 0), 'total': r['properties']}
         json.dump(expected, open(exp_path, 'w'), indent=1, sort_keys=True)
     known = load_known()
     violations = []
     known_hits = []
     for r in results:
         key = '%s/%s/%s' % (r['unit'], r['ob'], r['config'])
-        if r['status'] == 'proved' and key in expected and r['properties'] < expected[key]:
+        exp = expected.get(key)
+        if r['status'] == 'proved' and isinstance(exp, dict) and r.get('user_props', 0) < exp.get('user', 0):
             r['status'] = 'undecided'
-            r['reason'] = 'only %d cbmc properties, %d recorded when the unit was written (dropped contract?)' % (r['properties'], expected[key])
+            r['reason'] = 'only %d user-level cbmc properties (CHECKs, contract and loop-invariant checks), %d recorded when the unit was written (dropped contract or check?)' % (r.get('user_props', 0), exp['user'])
         if r['status'] == 'undecided':
             undecided.append({'unit': r['unit'], 'ob': r['ob'], 'config': r['config'], 'reason': r.get('reason')})
         elif r['status'] == 'failed':
